@@ -27,6 +27,7 @@ type hsock struct {
 	closed bool
 	in     []byte // what the client sends; EOF afterwards
 	gate   chan struct{} // native replays only: writes wait until it is closed (a stalled client)
+	fail      bool          // every write fails (a half-dead connection that is still indexed)
 	slowFirst time.Duration // native replays only: the first write takes this long (a slow client)
 	nwrites   int32
 }
@@ -40,6 +41,9 @@ func (s *hsock) Read(b []byte) (int, error) {
 	return n, nil
 }
 func (s *hsock) Write(b []byte) (int, error) {
+	if s.fail {
+		return 0, io.ErrClosedPipe
+	}
 	if s.gate != nil {
 		<-s.gate
 	}
